@@ -139,7 +139,8 @@ struct ThetaObj : Obj {
     u.update(sk); u.update(o);
     sk = u.get_result((op.arg(1) & 1) != 0);
   }
-  std::string extra_view(const Bytes& b) override { auto w = wrapped_compact_theta_sketch::wrap(b.data(), b.size(), seed); return obs(w); }
+  // both values of the rarely used dump_on_error argument (chosen by the content, so that a given image always takes the same path)
+  std::string extra_view(const Bytes& b) override { const bool dump = (fnv1a(std::string(b.begin(), b.end())) & 1) != 0; auto w = wrapped_compact_theta_sketch::wrap(b.data(), b.size(), seed, dump); return obs(w); }
   bool beyond_exact() override { return sk.is_estimation_mode(); }
 };
 
